@@ -39,7 +39,7 @@ LEVEL = 'exploration'
 # exercising the defect itself.  Set to False once /repo is fixed
 # (VERIF_C17_UNCAP=1 does the same for one run, e.g. against a patched copy).
 import os
-KNOWN_WIRE_GRANDCHILD_LOST = not os.environ.get('VERIF_C17_UNCAP')
+KNOWN_WIRE_GRANDCHILD_LOST = False
 
 RULE = ('Hypothesis-generated space specs (all builder kinds, discrete '
         'auto_cast on/off/default with integral, fractional and mixed values, '
